@@ -252,6 +252,12 @@ def build(run):
         yield "MISSING restriction n[0]*v('+')", n[0] * v("+")
         yield "DOUBLE restriction f('+')('-')", C.NegativeRestricted(C.PositiveRestricted(f)) * v("+")
         yield "grad(h) unrestricted * v('+')", grad(h)[0] * v("+")
+        # the same double restrictions written with the call operator / jump / avg (what users write), directly nested
+        yield "DOUBLE restriction via the call operator f('+')('-')", f("+")("-") * v("+")
+        yield "DOUBLE restriction via the call operator f('-')('-')", f("-")("-") * v("+")
+        yield "DOUBLE restriction jump(f('+'))", jump(f("+")) * v("-")
+        yield "DOUBLE restriction avg(f('-')) n.n", avg(f("-")) * dot(n("+"), n("+")) * v("+")
+        yield "DOUBLE restriction of an expression (2*f('+'))('-')", (2 * f("+"))("-") * v("+")
 
     for mname, msh in MESHES.items():
         for cname, _e in corpus(msh):
@@ -410,6 +416,38 @@ def build(run):
         for cname, _e in corpus(tri):
             for dflt in ("+", None):
                 entry(mkey, cname, dflt)
+
+    # ---- the user-facing ways of writing a restriction build the restriction node they name (so that a doubly restricted integrand reaches the
+    # propagator as a double restriction): e('+') is PositiveRestricted(e), e('-') is NegativeRestricted(e), also when e is itself restricted
+    def call_operator():
+        sp = spaces(tri)
+        f, h = ufl.Coefficient(sp["DG"]), ufl.Coefficient(sp["H"])
+        u = ufl.Coefficient(sp["Hv"])
+        n_ = C.FacetNormal(tri)
+        operands = [("f", f), ("f*h", f * h), ("grad(f)", grad(f)), ("u", u), ("n", n_), ("f('+')", f("+")), ("f('-')", f("-")), ("grad(f)('+')", grad(f)("+")), ("2*f('+')", 2 * f("+")),
+                    ("variable(f)", variable(f)), ("conditional", conditional(lt(f, h), f, h))]
+        n = 0
+        for nm, e in operands:
+            for side, cls in (("+", C.PositiveRestricted), ("-", C.NegativeRestricted)):
+                try:
+                    r = e(side)
+                except ValueError as ex:
+                    if not deliberate(ex):
+                        return violated(f"crash instead of a result or a refusal: {crash_text(ex)}", reproduced=True, backend="exec")
+                    n += 1
+                    continue
+                n += 1
+                if type(r) is not cls or not (r.ufl_operands[0] is e or r.ufl_operands[0] == e):
+                    return violated(f"{nm}('{side}') builds {type(r).__name__}({str(r)[:80]}) instead of {cls.__name__}({nm}): the restriction written by the user is not "
+                                    f"the one the propagator gets to see", replay={"operand": nm, "side": side, "result": str(r)[:300]}, reproduced=True, backend="structural")
+        for nm, mk_, want in [("jump(f)", lambda: jump(f), lambda: f("+") - f("-")), ("avg(f)", lambda: avg(f), lambda: 0.5 * (f("+") + f("-"))),
+                              ("jump(f('+'))", lambda: jump(f("+")), lambda: C.PositiveRestricted(f("+")) - C.NegativeRestricted(f("+"))),
+                              ("avg(f('-'))", lambda: avg(f("-")), lambda: 0.5 * (C.PositiveRestricted(f("-")) + C.NegativeRestricted(f("-"))))]:
+            n += 1
+            if not (mk_() == want()):
+                return violated(f"{nm} builds {str(mk_())[:120]}, expected {str(want())[:120]}", replay={"expr": nm}, reproduced=True, backend="structural")
+        return proved("exec+structural", vcs=n, sample=f"{n} restriction spellings: e(side) is the restriction node of that side around e itself (also around restricted e)")
+    run.add("operator/restriction-call-builds-the-restriction", call_operator, kind="values")
 
     def canary():
         msh = tri
